@@ -456,3 +456,224 @@ Proof.
   { unfold pstate in Ep, Dp, Hw. rewrite Ea in Ep. rewrite Da in Ep, Dp. lia. }
   destruct ex; simpl; rewrite ?Ea, ?Hends; repeat split; try lia; discriminate.
 Qed.
+
+(* ====================================================================== *)
+(* the stderr side-band                                                   *)
+(* ====================================================================== *)
+Open Scope N_scope.
+
+Lemma split_cs_eq c d r :
+  split_cs (c :: d :: r) =
+  if (c =? 58) && (d =? 32) then Some ([], r)
+  else match split_cs (d :: r) with Some (a, b) => Some (c :: a, b) | None => None end.
+Proof. reflexivity. Qed.
+
+Lemma split_cs_sound s : forall n m,
+  split_cs s = Some (n, m) -> s = n ++ colon_space ++ m /\ ~ infix colon_space n.
+Proof.
+  induction s as [|c r IH]; intros n m H; [discriminate|].
+  destruct r as [|d r']; [discriminate|]. rewrite split_cs_eq in H.
+  destruct ((c =? 58) && (d =? 32)) eqn:E.
+  - inversion H; subst. apply andb_true_iff in E. destruct E as [E1 E2].
+    apply N.eqb_eq in E1. apply N.eqb_eq in E2. subst. split; [reflexivity|].
+    intros (a & b & Hab). destruct a; discriminate.
+  - destruct (split_cs (d :: r')) as [[a b]|] eqn:E2; [|discriminate]. inversion H; subst.
+    destruct (IH a m eq_refl) as (Hs & Hn). split.
+    + simpl. rewrite Hs. reflexivity.
+    + intros (x & y & Hxy). destruct x as [|x0 x]; simpl in Hxy; inversion Hxy; subst.
+      * simpl in Hs. inversion Hs; subst. simpl in E. discriminate.
+      * apply Hn. exists x, y. reflexivity.
+Qed.
+
+Lemma split_cs_complete n : forall m,
+  ~ infix colon_space n -> split_cs (n ++ colon_space ++ m) = Some (n, m).
+Proof.
+  induction n as [|c n IH]; intros m Hn; [reflexivity|].
+  assert (Hn' : ~ infix colon_space n).
+  { intros (a & b & E). apply Hn. exists (c :: a), b. rewrite E. reflexivity. }
+  specialize (IH m Hn').
+  destruct n as [|d n'].
+  - change ([c] ++ colon_space ++ m) with (c :: 58 :: 32 :: m). rewrite split_cs_eq.
+    change (58 =? 32) with false. rewrite andb_false_r.
+    change (split_cs (58 :: 32 :: m)) with (Some (@nil N, m)). reflexivity.
+  - change ((c :: d :: n') ++ colon_space ++ m) with (c :: d :: (n' ++ colon_space ++ m)).
+    rewrite split_cs_eq.
+    destruct ((c =? 58) && (d =? 32)) eqn:E.
+    + exfalso. apply andb_true_iff in E. destruct E as [E1 E2].
+      apply N.eqb_eq in E1. apply N.eqb_eq in E2. subst. apply Hn. exists [], n'. reflexivity.
+    + change (d :: n' ++ colon_space ++ m) with ((d :: n') ++ colon_space ++ m). rewrite IH. reflexivity.
+Qed.
+
+Lemma split_cs_iff s n m :
+  split_cs s = Some (n, m) <-> s = n ++ colon_space ++ m /\ ~ infix colon_space n.
+Proof.
+  split; [apply split_cs_sound|]. intros (-> & H). apply split_cs_complete. exact H.
+Qed.
+
+Lemma classify_side batch line n m : classify batch line = LSide n m <-> side_of batch line n m.
+Proof.
+  unfold classify, side_of. destruct (trim_space line) as [|x str] eqn:T.
+  - split; [discriminate|]. intros (E & _). destruct n; discriminate.
+  - destruct (split_cs (x :: str)) as [[a b]|] eqn:S.
+    + apply split_cs_iff in S. destruct S as (Es & Hn).
+      destruct (mem_bytes a batch) eqn:M.
+      * split.
+        -- intros H. inversion H; subst. repeat split; try assumption. apply mem_bytes_in. exact M.
+        -- intros (E & Hn' & Hin).
+           assert (S2 : split_cs (x :: str) = Some (n, m)) by (apply split_cs_iff; split; assumption).
+           assert (S1 : split_cs (x :: str) = Some (a, b)) by (apply split_cs_iff; split; assumption).
+           rewrite S1 in S2. inversion S2; subst. reflexivity.
+      * split; [discriminate|]. intros (E & Hn' & Hin).
+        assert (S2 : split_cs (x :: str) = Some (n, m)) by (apply split_cs_iff; split; assumption).
+        assert (S1 : split_cs (x :: str) = Some (a, b)) by (apply split_cs_iff; split; assumption).
+        rewrite S1 in S2. inversion S2; subst. apply mem_bytes_in in Hin. congruence.
+    + split; [discriminate|]. intros (E & Hn' & Hin).
+      assert (S2 : split_cs (x :: str) = Some (n, m)) by (apply split_cs_iff; split; assumption).
+      congruence.
+Qed.
+
+Lemma classify_blank batch line : classify batch line = LBlank <-> blank line.
+Proof.
+  unfold classify, blank. destruct (trim_space line) as [|x str]; [tauto|].
+  split; [|discriminate]. destruct (split_cs (x :: str)) as [[a b]|]; [destruct (mem_bytes a batch)|]; discriminate.
+Qed.
+
+Lemma classify_pass batch line :
+  classify batch line = LPass <-> ~ blank line /\ ~ attributed batch line.
+Proof.
+  split.
+  - intros H. split.
+    + intros B. apply classify_blank with (batch := batch) in B. congruence.
+    + intros (n & m & S). apply classify_side in S. congruence.
+  - intros (NB & NA). destruct (classify batch line) as [|n m|] eqn:C; [| |reflexivity].
+    + exfalso. apply NB. apply (classify_blank batch). exact C.
+    + exfalso. apply NA. exists n, m. apply classify_side. exact C.
+Qed.
+
+Lemma parse_lines_side batch ls : forall n m,
+  In (n, m) (fst (parse_lines batch ls)) <-> exists l, In l ls /\ classify batch l = LSide n m.
+Proof.
+  induction ls as [|l r IH]; intros n m; simpl.
+  - split; [tauto|]. intros (l & [] & _).
+  - specialize (IH n m). destruct (parse_lines batch r) as [sb fw]. simpl in IH.
+    destruct (classify batch l) as [|n0 m0|] eqn:C; simpl.
+    + rewrite IH. split; intros (x & Hx & Cx); [exists x; auto|].
+      destruct Hx as [<-|Hx]; [congruence|exists x; auto].
+    + rewrite IH. split.
+      * intros [E|(x & Hx & Cx)]; [inversion E; subst; exists l; auto|exists x; auto].
+      * intros (x & [<-|Hx] & Cx); [left; congruence|right; exists x; auto].
+    + rewrite IH. split; intros (x & Hx & Cx); [exists x; auto|].
+      destruct Hx as [<-|Hx]; [congruence|exists x; auto].
+Qed.
+
+Lemma parse_lines_pass batch ls : forall l,
+  In l (snd (parse_lines batch ls)) <-> In l ls /\ classify batch l = LPass.
+Proof.
+  induction ls as [|l0 r IH]; intros l; simpl.
+  - tauto.
+  - specialize (IH l). destruct (parse_lines batch r) as [sb fw]. simpl in IH.
+    destruct (classify batch l0) as [|n0 m0|] eqn:C; simpl; rewrite IH.
+    + split; [tauto|]. intros ([<-|Hx] & Cx); [congruence|auto].
+    + split; [tauto|]. intros ([<-|Hx] & Cx); [congruence|auto].
+    + split.
+      * intros [<-|H]; [auto|tauto].
+      * intros ([<-|Hx] & Cx); [left; reflexivity|right; auto].
+Qed.
+
+Lemma parse_lines_subseq batch ls : subseq (snd (parse_lines batch ls)) ls.
+Proof.
+  induction ls as [|l0 r IH]; simpl; [constructor|].
+  destruct (parse_lines batch r) as [sb fw]. simpl in IH.
+  destruct (classify batch l0); simpl; constructor; exact IH.
+Qed.
+
+Lemma parse_lines_spec batch ls :
+  (forall n m, In (n, m) (fst (parse_lines batch ls)) <-> exists l, In l ls /\ classify batch l = LSide n m) /\
+  (forall l, In l (snd (parse_lines batch ls)) <-> In l ls /\ classify batch l = LPass) /\
+  subseq (snd (parse_lines batch ls)) ls.
+Proof.
+  split; [apply parse_lines_side|]. split; [apply parse_lines_pass|apply parse_lines_subseq].
+Qed.
+
+Theorem lines_spec_proof : forall s, lines_of s (lines_keep s).
+Proof.
+  induction s as [|c r (Hc & init & last & Hl & Hf & Hn)].
+  - split; [reflexivity|]. exists [], []. repeat split; auto.
+  - cbn [lines_keep]. destruct (N.eqb_spec c 10) as [->|Hne].
+    + split; [simpl; rewrite Hc; reflexivity|].
+      exists ([10] :: init), last. rewrite Hl. repeat split; auto.
+      constructor; [|exact Hf]. exists []. split; [reflexivity|tauto].
+    + rewrite Hl in *. destruct init as [|i0 init0]; simpl in *.
+      * split; [rewrite <- Hc; reflexivity|]. exists [], (c :: last). repeat split; auto.
+        intros [E|H]; [congruence|tauto].
+      * split; [rewrite <- Hc; reflexivity|]. exists ((c :: i0) :: init0), last.
+        inversion Hf as [|? ? (body & Eb & Hb) Hf']; subst. repeat split; auto.
+        constructor; [|exact Hf']. exists (c :: body). split; [reflexivity|].
+        intros [E|H]; [congruence|tauto].
+Qed.
+
+(* what the function records from stderr, in terms of the batch and the stream alone *)
+Theorem sideband_attribution_proof : forall er sv cs,
+  let r := run_batch er sv cs in
+  (s_start sv = true /\ s_refsrv sv = true ->
+     (forall n m, In (n, m) (r_sbs r) <->
+                  exists line, In line (lines_keep (s_stderr sv)) /\ side_of (names cs) line n m) /\
+     (forall line, In line (r_fwd r) <->
+                  In line (lines_keep (s_stderr sv)) /\ ~ blank line /\ ~ attributed (names cs) line) /\
+     subseq (r_fwd r) (lines_keep (s_stderr sv))) /\
+  (s_start sv = false \/ s_refsrv sv = false -> r_sbs r = [] /\ r_fwd r = []).
+Proof.
+  intros er sv cs.
+  assert (E : r_sbs (run_batch er sv cs) = (if s_start sv && s_refsrv sv then fst (parse_stderr (names cs) (s_stderr sv)) else []) /\
+              r_fwd (run_batch er sv cs) = (if s_start sv && s_refsrv sv then snd (parse_stderr (names cs) (s_stderr sv)) else [])).
+  { unfold run_batch, names. destruct (s_start sv); simpl; [|split; reflexivity].
+    destruct (s_refsrv sv); simpl.
+    - destruct (parse_stderr (map c_name cs) (s_stderr sv)) as [sbs fwd]. simpl.
+      destruct (s_write sv); try (split; reflexivity).
+      destruct (s_resp sv) as [cert|]; [|split; reflexivity].
+      destruct (s_tls sv && negb cert); [split; reflexivity|].
+      match goal with |- context [send_loop ?a ?b ?c ?d] => destruct (send_loop a b c d) as [l1 ex] end.
+      destruct ex, er; split; reflexivity.
+    - destruct (s_write sv); try (split; reflexivity).
+      destruct (s_resp sv) as [cert|]; [|split; reflexivity].
+      destruct (s_tls sv && negb cert); [split; reflexivity|].
+      match goal with |- context [send_loop ?a ?b ?c ?d] => destruct (send_loop a b c d) as [l1 ex] end.
+      destruct ex, er; split; reflexivity. }
+  destruct E as (E1 & E2). cbv zeta. rewrite E1, E2. split.
+  - intros (-> & ->). simpl. unfold parse_stderr.
+    destruct (parse_lines_spec (names cs) (lines_keep (s_stderr sv))) as (P1 & P2 & P3).
+    split; [|split; [|exact P3]].
+    + intros n m. rewrite P1. split; intros (l & Hl & C); exists l; (split; [exact Hl|]); apply classify_side; exact C.
+    + intros line. rewrite P2. rewrite classify_pass. tauto.
+  - intros [-> | ->]; rewrite ?andb_false_r; simpl; split; reflexivity.
+Qed.
+
+Close Scope N_scope.
+
+(* ---------- the fault point, characterised without recursion ---------- *)
+Theorem sends_ok_spec_proof : forall cs k,
+  sends_ok cs = k <->
+  (forall j c, j < k -> nth_error cs j = Some c -> c_send c = true) /\ k <= length cs /\
+  (forall c, nth_error cs k = Some c -> c_send c = false).
+Proof.
+  induction cs as [|c r IH]; intros k; simpl.
+  - split.
+    + intros <-. repeat split; auto. intros [|j] c; discriminate. intros c; discriminate.
+    + intros (_ & H & _). lia.
+  - destruct (c_send c) eqn:Hs.
+    + destruct k as [|k].
+      * split; [discriminate|]. intros (_ & _ & H). specialize (H c eq_refl). congruence.
+      * split.
+        -- intros E. injection E as E. apply IH in E. destruct E as (A & B & C). repeat split.
+           ++ intros [|j] c0 Hj Hn; simpl in Hn; [inversion Hn; subst; exact Hs|]. apply (A j c0); [lia|exact Hn].
+           ++ lia.
+           ++ intros c0 Hn. simpl in Hn. apply C. exact Hn.
+        -- intros (A & B & C). f_equal. apply IH. repeat split.
+           ++ intros j c0 Hj Hn. apply (A (S j) c0); [lia|exact Hn].
+           ++ lia.
+           ++ intros c0 Hn. apply (C c0). exact Hn.
+    + split.
+      * intros <-. repeat split; [intros j c0 Hj; lia|lia|]. intros c0 Hn. inversion Hn; subst. exact Hs.
+      * intros (A & _ & _). destruct k as [|k]; [reflexivity|].
+        specialize (A 0 c (Nat.lt_0_succ k) eq_refl). congruence.
+Qed.
